@@ -4,6 +4,7 @@ import (
 	"fmt"
 	"go/token"
 	"go/types"
+	"os"
 	"strings"
 	"time"
 
@@ -1172,7 +1173,10 @@ func runC04Lineage(c *Ctx, isZeroCut Barrier) {
 	addl := c.fobj("C04-R7", cp+".(*Cache).additionalAnswer")
 	if wm := c.fn("C04-R7", cp+".(*ResponseWriter).WriteMsg"); wm != nil && cutFn != nil && addl != nil {
 		c.MustCrossFrom("C04-R7", wm, "Cut() is read after the synchronous chase", isPlainCallTo(cutFn), isCallTo(addl))
-		if len(instrsWhere(wm, isCallTo(addl))) == 0 {
+		// the chase call itself, or WriteMsg's unexported same-package helper that
+		// makes it (MustCrossFrom above already treats a call to such a helper as
+		// reaching the chase); only "WriteMsg never chases" is vacuous
+		if len(instrsInScope(wm, isCallTo(addl))) == 0 {
 			c.unresolved("C04-R7", "WriteMsg|additionalAnswer", "no chase call found in WriteMsg")
 		}
 	}
@@ -1289,6 +1293,138 @@ func c04RootOf(v ssa.Value) ssa.Value {
 	return v
 }
 
+// c04HelperTransfers follows a call that hands both the sub-response and another
+// message to an unexported same-package helper h into h's body and decides there
+// the same thing runSubQueryLineage decides in the caller: is anything of the
+// sub-response moved into the other message?  subIdx = the parameters of h bound
+// to the sub-response; unconditional = the call is reached whatever the
+// sub-response says.  A transfer inside h is
+//   - a call that receives a message derived from a sub parameter together with
+//     another *dns.Msg (a further local helper is followed, depth ≤ 2; anything
+//     else counts as a transfer),
+//   - a store into a field of a *dns.Msg parameter that is not the sub-response
+//     (AD ← false and stores independent of the sub-response excepted, exactly as
+//     in the caller),
+//   - a returned *dns.Msg that derives from a sub parameter (the caller would go
+//     on composing its reply from the sub-response under another name).
+//
+// A helper that only reads the sub-response (its rcode, its EDE option) and
+// rebuilds the outer message from the outer message transfers nothing.
+func c04HelperTransfers(h *ssa.Function, subIdx map[int]bool, unconditional bool, adF *types.Var, depth int) (bool, string) {
+	isSubParam := func(e *Expr) bool {
+		if e == nil || e.K != EParam || !subIdx[e.Idx] {
+			return false
+		}
+		p, ok := e.V.(*ssa.Parameter)
+		return ok && p.Parent() == h
+	}
+	mentionsSub := Contains(isSubParam)
+	// a message value is the sub-response when it originates in a sub parameter,
+	// or in a call that was itself handed such a message (sub.Copy(), f(sub));
+	// a message built from the outer one with scalars read off the sub-response
+	// (SetRcodeWithEDE(msg, …, GetEDE(sub).InfoCode, …)) is not
+	var msgFromSub func(e *Expr, d int) bool
+	msgFromSub = func(e *Expr, d int) bool {
+		if d > 6 {
+			return true
+		}
+		for _, l := range Origins(e, nil) {
+			if isSubParam(l) {
+				return true
+			}
+			call := l
+			if l.K == EExtract && l.X != nil {
+				call = l.X
+			}
+			if call.K != ECall {
+				continue
+			}
+			for _, a := range call.Args {
+				if a != nil && a.V != nil && c04IsDNSMsgPtr(a.V.Type()) && msgFromSub(a, d+1) {
+					return true
+				}
+			}
+		}
+		return false
+	}
+	fromSub := func(v ssa.Value) bool { return msgFromSub(Desc(v), 0) }
+	outerRoot := func(v ssa.Value) bool {
+		for _, l := range Origins(Desc(v), nil) {
+			if l.K != EParam || subIdx[l.Idx] {
+				continue
+			}
+			if p, ok := l.V.(*ssa.Parameter); ok && p.Parent() == h && c04IsDNSMsgPtr(p.Type()) {
+				return true
+			}
+		}
+		return false
+	}
+	subCond := func(succ int) Barrier {
+		return Barrier{Name: "decision on the sub-response", Edge: func(cond *Expr) (bool, int) { return mentionsSub(cond), succ }}
+	}
+	independent := reach(entryPoint(h), []Barrier{subCond(0), subCond(1)}, nil)
+	for _, g := range WithAnons(h) {
+		for _, b := range g.Blocks {
+			for _, in := range b.Instrs {
+				if cc := callCommon(in); cc != nil {
+					args := cc.Args
+					if cc.IsInvoke() {
+						args = append([]ssa.Value{cc.Value}, args...)
+					}
+					hasSub, hasOuter := false, false
+					inner := map[int]bool{}
+					for i, a := range args {
+						if !c04IsDNSMsgPtr(a.Type()) {
+							continue
+						}
+						if fromSub(a) {
+							hasSub = true
+							inner[i] = true
+						} else {
+							hasOuter = true
+						}
+					}
+					if hasSub && hasOuter {
+						if g2 := localHelper(g, cc); g2 != nil && depth < 2 {
+							if t, why := c04HelperTransfers(g2, inner, unconditional && g == h && independent.visited[in], adF, depth+1); !t {
+								continue
+							} else {
+								return true, calleeName(in) + ": " + why
+							}
+						}
+						return true, "call " + calleeName(in) + "(sub-response, outer message)"
+					}
+					continue
+				}
+				switch x := in.(type) {
+				case *ssa.Store:
+					root := c04RootOf(x.Addr)
+					if root == x.Addr || !outerRoot(root) {
+						continue
+					}
+					if adF != nil && isFieldStore(in, adF, IsConstBool(false)) {
+						continue
+					}
+					if unconditional && g == h && independent.visited[in] && !mentionsSub(Desc(x.Val)) {
+						continue
+					}
+					return true, "store into the outer message (" + trunc(Desc(x.Addr).String(), 60) + ")"
+				case *ssa.Return:
+					if g != h {
+						continue
+					}
+					for _, r := range x.Results {
+						if c04IsDNSMsgPtr(r.Type()) && fromSub(r) {
+							return true, "returns a message derived from the sub-response"
+						}
+					}
+				}
+			}
+		}
+	}
+	return false, ""
+}
+
 func runC04SubQueryLineage(c *Ctx) { runSubQueryLineage(c, "C04-R10") }
 
 // runSubQueryLineage is claimed by C04 (lifetimes) and C08 (leases): R names the rule.
@@ -1367,17 +1503,31 @@ func runSubQueryLineage(c *Ctx, R string) {
 				if cc.IsInvoke() {
 					args = append([]ssa.Value{cc.Value}, args...)
 				}
-				for _, a := range args {
+				subIdx := map[int]bool{}
+				for i, a := range args {
 					if !c04IsDNSMsgPtr(a.Type()) {
 						continue
 					}
 					if fromSub(a) {
 						hasSub = true
+						subIdx[i] = true
 					} else {
 						hasOuter = true
 					}
 				}
 				if hasSub && hasOuter {
+					// handed to an unexported same-package helper: the question "does
+					// anything of the sub-response reach the outer message" is decided
+					// inside the helper's body, as it would be were the body inline
+					if h := localHelper(s.Fn, cc); h != nil {
+						t, why := c04HelperTransfers(h, subIdx, independent.visited[in], adF, 0)
+						if os.Getenv("SDNSVERIF_DEBUG_HELPER") != "" {
+							fmt.Fprintf(os.Stderr, "c04HelperTransfers %s: %v %s\n", h.Name(), t, why)
+						}
+						if !t {
+							return false, ""
+						}
+					}
 					return true, "call " + calleeName(in) + "(sub-response, outer message)"
 				}
 				return false, ""
